@@ -27,3 +27,15 @@ Definition decode_cbor (cc : ccfg) (w : wcfg) (b : bytes) : dres claims :=
       | DUnmodelled => DUnmodelled
       end
   end.
+
+(** does the token (under the profile it declares) rely on a decoder leniency? *)
+Definition lenient_cbor (cc : ccfg) (w : wcfg) (b : bytes) : bool :=
+  match parse_all b with
+  | Some t =>
+      match decode_selector t with
+      | DOk name => if bytes_eqb name (prof2 cc) then lenient_token (w_p2 w) (w_swc w) t
+                    else lenient_token (w_p1 w) (w_swc w) t
+      | _ => false
+      end
+  | None => false
+  end.
